@@ -97,6 +97,7 @@ func checkJSONTags(c *Ctx, rule string, root types.Type, allowDash map[string]st
 		structs++
 		var problems []string
 		names := map[string]string{}
+		var embedded []string
 		for i := 0; i < st.NumFields(); i++ {
 			f := st.Field(i)
 			fields++
@@ -115,7 +116,9 @@ func checkJSONTags(c *Ctx, rule string, root types.Type, allowDash map[string]st
 				continue
 			}
 			if f.Embedded() {
-				problems = append(problems, q+" is embedded (field promotion changes the JSON shape; not analysed)")
+				// encoding/json promotes the members of an untagged embedded struct into the outer object: the
+				// shape may well be the same as before; which names result is not worked out here
+				embedded = append(embedded, q)
 			}
 			if name == "" {
 				name = f.Name()
@@ -155,6 +158,10 @@ func checkJSONTags(c *Ctx, rule string, root types.Type, allowDash map[string]st
 				why = n.Obj().Name() + " has its own " + strings.Join(dedupe(custom[n]), ", ") + ": the member names are decided in that code, not by the tags"
 			}
 			c.undecided(rule, n.Obj().Pkg().Name()+"."+n.Obj().Name(), n.Obj().Pos(), why)
+			continue
+		}
+		if len(u) == 0 && len(embedded) > 0 {
+			c.undecided(rule, n.Obj().Pkg().Name()+"."+n.Obj().Name(), n.Obj().Pos(), strings.Join(embedded, ", ")+" is embedded: its members are promoted into the outer JSON object; the resulting names are not worked out")
 			continue
 		}
 		c.check(len(u) == 0, rule, n.Obj().Pkg().Name()+"."+n.Obj().Name(), n.Obj().Pos(), fmt.Sprintf("%d fields: exported, unique JSON names, plain kinds, no omitempty on collections, no custom marshaler", st.NumFields()), strings.Join(u, "; "))
